@@ -2,7 +2,7 @@ use c18::tree::{Carry, Case, Form, Header, Item, Node, PushVia};
 use vcore::proptest::prelude::*;
 use vcore::Level;
 
-const RULE: &str = "a case is a program as data: a span tree (<=20 span nodes, depth <=5; forms: attribute on sync/async fn, new_span! with Frame::call / enter / in_future, guard: parameter) with emit! events, Traceparent::current()/SpanCtxt::current checks and yields, plus pushed incoming headers (unparsable -> documented fallback, valid sampled/unsampled of another trace, same trace id as the active one, all-zero, half-zero; through Traceparent::push, push(traceparent, tracestate) or header text), next-service hops (format current header, parse and push it on a fresh thread, run child spans there), same-service thread hops (carrying nothing / Frame::current(rt.ctxt()) / Traceparent::current().push() / both; by call or in_future) and joins of async tasks with a generated poll schedule (optionally each task wrapped in Frame::current(rt.ctxt()).in_future, and then optionally with polls migrating to fresh threads); the sampler is a generated decision table indexed by call number that records its argument; the filter is TraceparentFilter optionally AND in_sampled_trace_filter(b). Run on a private runtime on a fresh thread and judged against a model of the active traceparent. Non-trivial = at least two root spans whose sampler decisions differ, or a pushed incoming header, or a (thread or service) hop.";
+const RULE: &str = "a case is a program as data: a span tree (<=20 span nodes, depth <=5; forms: attribute on sync/async fn, new_span! with Frame::call / enter / in_future, guard: parameter) with emit! events, Traceparent::current()/SpanCtxt::current checks and yields, plus pushed incoming headers (unparsable -> documented fallback, valid sampled/unsampled of another trace, same trace id as the active one, all-zero, half-zero; through Traceparent::push, push(traceparent, tracestate) or header text), next-service hops (format current header, parse and push it on a fresh thread, run child spans there), same-service thread hops (carrying nothing / Frame::current(rt.ctxt()) / Traceparent::current().push() / both; by call or in_future) and joins of async tasks with a generated poll schedule (optionally each task wrapped in Frame::current(rt.ctxt()).in_future, and then optionally with polls migrating to fresh threads); the sampler is a generated decision table indexed by call number that records its argument, or no sampler at all is installed (TraceparentFilter::new(), the plain setup(): every locally started trace is sampled and unsampled traces only arrive through incoming headers); the filter is TraceparentFilter optionally AND in_sampled_trace_filter(b). Run on a private runtime on a fresh thread and judged against a model of the active traceparent. Non-trivial = at least two root spans whose sampler decisions differ, or a pushed incoming header, or a (thread or service) hop.";
 
 const ASSUMPTIONS: [&str; 8] = [
     "ids of sampled spans are read from their own span events; the order of sampler calls is read from the log positions of span starts (never predicted); ids inside unsampled traces are learned from the first observation inside the span and must then stay stable and be restored",
@@ -96,14 +96,22 @@ fn case() -> impl Strategy<Value = Case> {
     (
         prop::collection::vec(any::<bool>(), 0..8),
         any::<bool>(),
-        prop_oneof![3 => Just(None), 2 => Just(Some(true)), 1 => Just(Some(false))],
+        // (no sampler installed?, sampled-trace filter): the plain `setup()` configuration is a third of the cases
+        prop_oneof![
+            3 => Just((false, None)),
+            2 => Just((false, Some(true))),
+            1 => Just((false, Some(false))),
+            3 => Just((true, None)),
+            1 => prop_oneof![Just((true, Some(true))), Just((true, Some(false)))],
+        ],
         any::<u64>(),
         body(7),
     )
-        .prop_map(|(sampler, sampler_default, in_sampled, rng, mut items)| {
+        .prop_map(|(sampler, sampler_default, (no_sampler, in_sampled), rng, mut items)| {
             let mut budget = 20;
             limit(&mut items, &mut budget, 0);
-            Case { sampler, sampler_default, in_sampled, rng, items }
+            let (sampler, sampler_default) = if no_sampler { (Vec::new(), true) } else { (sampler, sampler_default) };
+            Case { no_sampler, sampler, sampler_default, in_sampled, rng, items }
         })
 }
 
@@ -116,6 +124,7 @@ fn main() {
         s.require("roots-with-differing-decisions", 200);
         s.require("next-service-with-spans", 100);
         s.require("thread-hop-carried", 100);
+        s.require("no-sampler-unsampled-incoming-with-spans", 100);
         s.require("frame-current-hop-with-spans", 100);
         s.require("async-join-polls-migrate-threads", 100);
         s.gen("programs", s.n(20_000, 600_000), case, c18::check_case);
